@@ -6784,6 +6784,16 @@ class SFTPServerHandler(SFTPHandler):
         return SFTPLimits(MAX_SFTP_PACKET_LEN, MAX_SFTP_READ_LEN,
                           MAX_SFTP_WRITE_LEN, nfiles)
 
+    @staticmethod
+    def _same_open_file(src: object, dst: object) -> bool:
+        """Return whether two open file objects refer to the same file"""
+
+        try:
+            return os.path.sameopenfile(src.fileno(), # type: ignore
+                                        dst.fileno()) # type: ignore
+        except (AttributeError, OSError, ValueError):
+            return False
+
     async def _process_copy_data(self, packet: SSHPacket) -> None:
         """Process an incoming copy data request"""
 
@@ -6804,6 +6814,13 @@ class SFTPServerHandler(SFTPHandler):
         dst = self._file_handles.get(write_to_handle)
 
         if src and dst:
+            # Like OpenSSH, refuse to copy a file onto itself: data written
+            # ahead of the read position would be read and copied again
+            # without ever reaching the end of the file
+            if src is dst or self._same_open_file(src, dst):
+                raise SFTPFailure('Source and destination of copy-data '
+                                  'are the same file')
+
             read_to_end = read_from_length == 0
 
             while read_to_end or read_from_length:
